@@ -41,8 +41,8 @@ def universe(tier):
     # second, equal-but-not-identical instances (equality/hash clauses)
     import numpy as np
     twins = [(T.TAnyVocabOfDim(16), "D:16"), (T.TAnyVocabOfDim(fresh(512)), "D:512"), (T.TVocabulary(vocs[0]), "V:0"),
-             (T.TAnyVocabOfDim(np.int64(16)), "D:16"), (T.TAnyVocabOfDim(np.int32(512)), "D:512"),   # NumPy integer dimensionalities (T.Type("TScalar"), "S"),
-             (T.Type("Custom"), "B:Custom")]
+             (T.TAnyVocabOfDim(np.int64(16)), "D:16"), (T.TAnyVocabOfDim(np.int32(512)), "D:512"),   # NumPy integer dimensionalities
+             (T.Type("TScalar"), "S"), (T.Type("Custom"), "B:Custom")]
     return objs, twins, [v.dimensions for v in vocs]
 
 
@@ -102,6 +102,30 @@ def run(ctx):
         if not getattr(ctx, "no_driver", False):
             ctx.ask("cmp", [ds, ta, tb], cb)
 
+    # ---- copies: a copied / unpickled type equals a type rebuilt from its own data, and hashes like it ---------
+    import copy
+    import pickle
+    for o, tok in objs:
+        for how, f in (("deepcopy", copy.deepcopy), ("pickle", lambda x: pickle.loads(pickle.dumps(x)))):
+            try:
+                c = f(o)
+            except Exception:  # noqa: BLE001  (not every object graph can be pickled)
+                continue
+            if isinstance(c, T.TVocabulary):
+                u = T.TVocabulary(c.vocab)
+            elif isinstance(c, T.TAnyVocabOfDim):
+                u = T.TAnyVocabOfDim(c.dimensions)
+            else:
+                u = c
+            ctx.count(f"copy {how} {tok}", nontrivial=True, branch=f"copied-{how}")
+            try:
+                same, hs = (c == u), (hash(c) == hash(u))
+            except Exception as e:  # noqa: BLE001
+                same, hs = f"{type(e).__name__}", False
+            if same is not True or not hs:
+                ctx.fail({"op": "copied-type", "how": how, "type": tok}, f"equal: {same}, equal hashes: {hs}",
+                         "a copied type equals the type rebuilt from its data and hashes like it", where="hash-equal")
+
     # ---- tuples ---------------------------------------------------------
     maxlen = 4 if ctx.tier == "quick" else 5
     base = objs if ctx.tier == "quick" else objs[:8] + objs[-1:]
@@ -113,6 +137,9 @@ def run(ctx):
         else:
             pool = base
         tuples += list(itertools.product(pool, repeat=n))
+    # equal-but-not-identical instances take part in coercion like the originals
+    tuples += list(itertools.product(twins + objs[:4], repeat=2))
+    tuples += [(a, b, c) for a in twins for b in objs[:6] for c in (objs[0], objs[1])]
     if ctx.tier != "quick":
         for _ in range(20000):
             n = ctx.rng.randint(6, 8)
